@@ -188,6 +188,84 @@ func (p *Prog) refParamIndex(fn *ssa.Function, i int) int {
 	return m[i]
 }
 
+// soleCallerArg: fn has exactly one static call site in production code and the rendering (in the caller) of the
+// argument bound to parameter i is free of the caller's parameters and locals-by-position.
+func (p *Prog) soleCallerArg(fn *ssa.Function, i int) (string, bool) {
+	if p.soleArgBusy[fn] {
+		return "", false
+	}
+	if p.soleArgBusy == nil {
+		p.soleArgBusy = map[*ssa.Function]bool{}
+	}
+	var site ssa.CallInstruction
+	n := 0
+	for _, e := range p.CG().In[fn] {
+		ci, ok := e.Site.(ssa.CallInstruction)
+		if !ok || ci.Common().StaticCallee() != fn {
+			return "", false
+		}
+		site = ci
+		n++
+	}
+	if n != 1 || site.Parent() == fn {
+		return "", false
+	}
+	args := site.Common().Args
+	if i >= len(args) {
+		return "", false
+	}
+	p.soleArgBusy[fn] = true
+	s := p.R(site.Parent()).E(args[i])
+	delete(p.soleArgBusy, fn)
+	if strings.Contains(s, "$") || strings.Contains(s, "^") || strings.Contains(s, "@") {
+		return "", false
+	}
+	return s, true
+}
+
+// sliceLiteralElems: v is the slice over a fresh array whose elements were stored one by one (the packaging of
+// variadic arguments): the stored values in index order, or nil.
+func (r *Renderer) sliceLiteralElems(v ssa.Value) []ssa.Value {
+	sl, ok := v.(*ssa.Slice)
+	if !ok {
+		return nil
+	}
+	arr, ok := sl.X.(*ssa.Alloc)
+	if !ok || arr.Referrers() == nil {
+		return nil
+	}
+	at, ok := arr.Type().(*types.Pointer).Elem().Underlying().(*types.Array)
+	if !ok {
+		return nil
+	}
+	out := make([]ssa.Value, at.Len())
+	for _, ref := range *arr.Referrers() {
+		ia, ok := ref.(*ssa.IndexAddr)
+		if !ok {
+			continue
+		}
+		k, ok := ia.Index.(*ssa.Const)
+		if !ok || k.Value == nil || ia.Referrers() == nil {
+			return nil
+		}
+		idx, exact := constant.Int64Val(constant.ToInt(k.Value))
+		if !exact || idx < 0 || idx >= at.Len() {
+			return nil
+		}
+		for _, r2 := range *ia.Referrers() {
+			if st, ok := r2.(*ssa.Store); ok && st.Addr == ssa.Value(ia) {
+				out[idx] = st.Val
+			}
+		}
+	}
+	for _, o := range out {
+		if o == nil {
+			return nil
+		}
+	}
+	return out
+}
+
 // splitTop2 splits a parameter list at top-level commas.
 func splitTop2(s string) []string {
 	var out []string
@@ -417,9 +495,16 @@ func typeShort(t types.Type) string {
 // funcShort names a callee: pkg.Func or Type.Method (type arguments dropped).
 func funcShort(f *types.Func) string {
 	sig, _ := f.Type().(*types.Signature)
+	name := f.Name()
 	if sig != nil && sig.Recv() != nil {
 		if nt := namedOf(sig.Recv().Type()); nt != nil {
-			return nt.Obj().Name() + "." + f.Name()
+			// a renamed function of the reference inventory is called by its old name
+			if f.Pkg() != nil && len(renamedKeys) > 0 {
+				if old, ok := renamedKeys[relPkg(f.Pkg().Path())+"."+nt.Obj().Name()+"."+name]; ok {
+					name = old[strings.LastIndex(old, ".")+1:]
+				}
+			}
+			return nt.Obj().Name() + "." + name
 		}
 		// interface method declared in an unnamed interface
 		return "iface." + f.Name()
@@ -427,7 +512,22 @@ func funcShort(f *types.Func) string {
 	if f.Pkg() == nil {
 		return f.Name()
 	}
-	return shortPkg(f.Pkg().Path()) + "." + f.Name()
+	if len(renamedKeys) > 0 {
+		if old, ok := renamedKeys[relPkg(f.Pkg().Path())+"."+name]; ok {
+			name = old[strings.LastIndex(old, ".")+1:]
+		}
+	}
+	// slices.Equal on byte slices is bytes.Equal
+	if f.Pkg().Path() == "slices" && name == "Equal" {
+		if sig != nil && sig.Params().Len() == 2 {
+			if sl, ok := sig.Params().At(0).Type().Underlying().(*types.Slice); ok {
+				if bt, ok := sl.Elem().Underlying().(*types.Basic); ok && bt.Kind() == types.Uint8 {
+					return "bytes.Equal"
+				}
+			}
+		}
+	}
+	return shortPkg(f.Pkg().Path()) + "." + name
 }
 
 func isContextType(t types.Type) bool {
@@ -652,7 +752,15 @@ func (r *Renderer) render(v ssa.Value) string {
 				if i < len(r.bind) && r.bind[i] != "" {
 					return r.bind[i]
 				}
-				return fmt.Sprintf("$%d", r.p.refParamIndex(r.fn, i))
+				ri := r.p.refParamIndex(r.fn, i)
+				if ri >= 100 {
+					// a parameter the reference signature did not have: with a single call site whose argument does not
+					// mention the caller's own parameters, it is that argument (computed by the caller instead of here)
+					if a, ok := r.p.soleCallerArg(r.fn, i); ok {
+						return a
+					}
+				}
+				return fmt.Sprintf("$%d", ri)
 			}
 		}
 		return "$?"
@@ -668,6 +776,24 @@ func (r *Renderer) render(v ssa.Value) string {
 			for _, b := range par.Blocks {
 				for _, in := range b.Instrs {
 					if mc, ok := in.(*ssa.MakeClosure); ok && mc.Fn == r.fn && idx >= 0 && idx < len(mc.Bindings) {
+						// a captured parameter that stands for an argument computed by the sole caller (soleCallerArg) is
+						// that expression, not a name of the enclosing function
+						bnd := mc.Bindings[idx]
+						if al, isAlloc := bnd.(*ssa.Alloc); isAlloc {
+							// a captured parameter lives in a cell initialised from the parameter
+							if ws := r.p.R(par).wholeStores[al]; len(ws) == 1 {
+								bnd = ws[0].Val
+							}
+						}
+						if pr, isParam := bnd.(*ssa.Parameter); isParam {
+							for i, pp := range par.Params {
+								if pp == pr && r.p.refParamIndex(par, i) >= 100 {
+									if a, ok := r.p.soleCallerArg(par, i); ok {
+										return a
+									}
+								}
+							}
+						}
 						return "^" + r.p.R(par).E(mc.Bindings[idx])
 					}
 				}
@@ -974,6 +1100,14 @@ func (r *Renderer) call(c *ssa.CallCommon) string {
 		}
 	} else if f := calleeFunc(c); f != nil {
 		name = funcShort(f)
+		// slices.Equal on byte slices is bytes.Equal
+		if name == "slices.Equal" && len(c.Args) == 2 {
+			if sl, ok := c.Args[0].Type().Underlying().(*types.Slice); ok {
+				if bt, ok := sl.Elem().Underlying().(*types.Basic); ok && bt.Kind() == types.Uint8 {
+					name = "bytes.Equal"
+				}
+			}
+		}
 	} else if b, ok := c.Value.(*ssa.Builtin); ok {
 		name = b.Name()
 	} else {
@@ -1640,7 +1774,7 @@ func pureCall(c *ssa.CallCommon) bool {
 	switch {
 	case pkg == modPath+"/pkg/crypto":
 		return true
-	case name == "relayer/types.EncodePublicKey", name == "relayer/types.VoteSignDoc", name == "collections.Join", name == "bytes.Equal",
+	case name == "relayer/types.EncodePublicKey", name == "relayer/types.VoteSignDoc", name == "collections.Join", name == "bytes.Equal", name == "slices.Equal",
 		name == "cosmos-sdk/types.UnwrapSDKContext", name == "locking/types.TokenDenom", name == "locking/types.ValidatorName",
 		name == "common.BytesToHash", name == "common.BytesToAddress", name == "sdkmath.NewIntFromUint64", name == "sdkmath.NewIntFromBigInt",
 		name == "sdkmath.LegacyNewDec", name == "sdkmath.LegacyNewDecFromInt", name == "sdkmath.ZeroInt", name == "cosmos-sdk/types.NewCoin":
